@@ -187,6 +187,16 @@ def direct(project, argv, home=None, env_extra=None, raw_env=None, debug=None):
     sys.stdout.flush(); sys.stderr.flush()
     fd1, fd2 = os.dup(1), os.dup(2)
     rc = 121
+    # Bob leaves sqlite connections (e.g. the develop directory table) to process exit; in this
+    # mode they have to be closed explicitly or the next invocation finds the database locked
+    import sqlite3
+    real_connect = sqlite3.connect
+    conns = []
+    def tracking_connect(*a, **kw):
+        c = real_connect(*a, **kw)
+        conns.append(c)
+        return c
+    sqlite3.connect = tracking_connect
     try:
         os.dup2(outf.fileno(), 1)
         os.dup2(errf.fileno(), 2)
@@ -216,6 +226,12 @@ def direct(project, argv, home=None, env_extra=None, raw_env=None, debug=None):
             sys.stdout.close(); sys.stderr.close()
         except Exception:
             pass
+        sqlite3.connect = real_connect
+        for c in conns:
+            try:
+                c.close()
+            except Exception:
+                pass
         os.dup2(fd1, 1); os.dup2(fd2, 2)
         os.close(fd1); os.close(fd2)
         sys.stdout, sys.stderr = saved_out, saved_err
